@@ -22,7 +22,8 @@ EPS = 1e-3
 
 
 def sp_inv(y):
-    return math.log(math.expm1(y))
+    # softplus^-1; for large y, log(expm1(y)) = y + log1p(-exp(-y)) without overflow
+    return y + math.log1p(-math.exp(-y)) if y > 30 else math.log(math.expm1(y))
 
 
 def mat(v):
@@ -232,6 +233,51 @@ def init_task(seed):
     return {"n": n, "fails": fails, "drift": []}
 
 
+def history_task(task):
+    """The accessors against the passes after a history (the failing histories TLC derives for the broken cache
+    designs of LinearCache.tla): whatever happened before, forward is x -> W x + b with W = weight(), the inverse
+    pass applies weight_inverse(), and both report logabsdet()."""
+    warnings.filterwarnings("ignore")
+    import torch
+
+    torch.set_num_threads(1)
+    from checks import c10
+
+    cls, uc, variant, seed, label, hist = task
+    out = {"n": 0, "fails": []}
+    D = 3
+    try:
+        d = c10.Driver(cls, D, uc, seed, variant)
+    except Exception:  # noqa
+        return out
+    for h in hist:
+        d.apply(h[0], h[1:])
+    m = d.m
+    if not hasattr(m, "weight"):
+        return out
+    x = torch.randn(4, D, generator=torch.Generator().manual_seed(seed), dtype=d.dtype())
+    out["n"] += 1
+    try:
+        with torch.no_grad():
+            y, lad = m.forward(x)
+            W, Wi, L = m.weight(), m.weight_inverse(), m.logabsdet()
+            xi, ladi = m.inverse(y)
+    except Exception:  # noqa  (operations that stop working after a history are C10's business)
+        return out
+    tol = 1e-4 if d.dt == "f32" else 1e-9
+    errs = {
+        "forward pass vs x W^T + b with W = weight()": float((y - (x @ W.t() + m.bias)).abs().max()),
+        "inverse pass vs (y - b) weight_inverse()^T": float((xi - ((y - m.bias) @ Wi.t())).abs().max()),
+        "forward log-det vs logabsdet()": float((lad - L).abs().max()),
+        "inverse log-det vs -logabsdet()": float((ladi + L).abs().max()),
+    }
+    bad = {k: v for k, v in errs.items() if not v <= tol * (1 + float(y.abs().max()))}
+    if bad:
+        k = max(bad, key=bad.get)
+        out["fails"].append({"cls": cls, "n": D, "clause": "pass_disagrees_with_accessor_after_history", "history_kind": True, "task": [cls, uc, variant, seed, label, hist], "par": {"design": label}, "detail": "after the history %s (%s mode switching): %s differs by %.3g" % (hist, variant, k, bad[k])})
+    return out
+
+
 def main(run, replay=None):
     run.rule = (
         "cases = every parameter state of LinAlg.tla (five parameterisations x feature counts 1..3 x lattice parameters; "
@@ -244,6 +290,10 @@ def main(run, replay=None):
     run.model_must_hold(res, "LinAlg")
     run.add_tlc(res, "LinAlg %s" % consts)
     states = parse_dump(res.dump)
+    if replay and replay["case"].get("history_kind"):
+        for f in history_task(tuple(replay["case"]["task"]))["fails"]:
+            run.violation({"cls": f["cls"], "clause": f["clause"]}, "replayed: " + f["detail"], replay["case"])
+        return
     if replay:
         c = replay["case"]
         import torch
@@ -268,6 +318,24 @@ def main(run, replay=None):
     out = init_task(run.seed)
     run.evaluations += out["n"]
     fails += out["fails"]
+    # accessors vs passes after a history: the failing histories TLC derives for broken cache designs
+    from checks import c10
+
+    hists = []
+    for label, kw in [("no invalidation on load_state_dict", dict(load=False)), ("no invalidation on train()", dict(train=False)), ("train() drops the cache only while using_cache is on", dict(train_off=False)), ("cached path taken in training mode while the parameters are frozen", dict(frozen_cached=True))]:
+        bres = T.run_tlc("LinearCache", T.cfg(constants=c10.consts(False, True, **kw), properties=["Transparent"], view="View"), name="lc_broken", coverage=False, workers=1)
+        if bres.ok:
+            raise T.MachineryError("LinearCache.tla does not discriminate the design '%s'" % label)
+        run.states += bres.distinct
+        run.transitions += bres.generated
+        h = c10.history_of_counterexample(bres.stdout)
+        if h:
+            hists.append((label, h))
+    htasks = [(cls, uc, variant, run.seed * 1000 + 700 + i, label, h) for i, (label, h) in enumerate(hists) for cls in ("LULinear", "QRLinear", "SVDLinear", "NaiveLinear") for uc in (False, True) for variant in c10.VARIANTS]
+    for out in pmap(history_task, htasks):
+        run.evaluations += out["n"]
+        fails += out["fails"]
+    run.extra["histories_from_LinearCache_counterexamples"] = [[l, h] for l, h in hists]
     for st in states:
         if int(st["par"]["n"]) > 1:
             run.nontrivial.add(repr(sorted((k, str(v)) for k, v in st["par"].items())))
